@@ -1079,3 +1079,74 @@ def r5_6_subsumption_single_rect(ck, P):
                     break
     if n == 0:
         ck.incomplete(R, 'no extents-subsumption shortcut found')
+
+
+def r7_6_previous_band_updates(ck, P):
+    """T-MPT, path-sensitive: a loop that remembers where the previous band starts (an index carried round the loop, -1 before the
+    first band) may keep that index across an iteration only when the iteration extended the previous band in place (stores through
+    it); on every other path the index moves on to the band just produced."""
+    from .factors import _loops_of
+    R = ck.rule('C07-R6', 'in the scanline loop that builds a region from a bitmap, the remembered start of the previous band (loop-carried index, -1 before the first band) is kept across an iteration only on paths that extended that band in place; every other path through the iteration replaces it (partial evaluation over the iteration\'s flags)', floor=2)
+    for u in units(P):
+        L = _loops_of(u)
+        for fn, loops in L.items():
+            f = u.functions.get(fn)
+            if f is None:
+                continue
+            for lp in loops:
+                hdr = lp['header']; blocks = set(lp['blocks'])
+                for ph in lp['phis']:
+                    H = f.by_id[ph['v']]
+                    if not (H.ty.startswith('i') and H.ty != 'i1'):
+                        continue
+                    outs = [a for a, bb in zip(H.a, H.d['bb']) if bb not in blocks]
+                    if not outs or any(not (a[0] == 'c' and int(a[1]) == -1) for a in outs):
+                        continue
+                    # stores through an address computed from H: the previous band is modified in place
+                    def from_h(o, seen, d=0):
+                        if d > 25 or o[0] != 'v' or o[1] in seen:
+                            return False
+                        if o[1] == H.i:
+                            return True
+                        seen.add(o[1])
+                        x = f.by_id[o[1]]
+                        if x.op in ('load', 'call'):
+                            return False
+                        ops = list(x.a) + [st[1] for st in x.d.get('path', []) if st and st[0] == 'p' and isinstance(st[1], list)]
+                        return any(from_h(a, seen, d + 1) for a in ops if a and a[0] == 'v')
+                    merge = {x.bb.id for b in blocks for x in f.blocks[b].insts if x.op == 'store' and from_h(x.a[1], set())}
+                    if not merge:
+                        continue
+                    # a store inside an inner loop stands for that whole loop (its header is entered even when the band is empty)
+                    for mb in list(merge):
+                        inner = [set(l2['blocks']) for l2 in loops if mb in l2['blocks'] and set(l2['blocks']) < blocks]
+                        if inner:
+                            merge |= min(inner, key=len)
+                    ck.saw(f)
+                    # phis (inside the loop) the back-edge value is assembled from
+                    tree = set(); work = [a for a, bb in zip(H.a, H.d['bb']) if bb in blocks]
+                    while work:
+                        a = work.pop()
+                        x = f.v(a)
+                        if x is not None and x.op == 'phi' and x.i != H.i and x.i not in tree and x.bb.id in blocks:
+                            tree.add(x.i); work.extend(x.a)
+                    back = {(bb, hdr) for bb in H.d['bb'] if bb in blocks}
+                    kept = []
+                    def on_edge(p, b, pv):
+                        if (p, b) not in back:
+                            return
+                        for a, bb in zip(H.a, H.d['bb']):
+                            if bb != p:
+                                continue
+                            tok = ('val', tuple(a))
+                            if a[0] == 'v' and a[1] in tree:
+                                tok = pv.get(a[1])
+                            if tok == ('val', ('v', H.i)):
+                                kept.append(p)
+                    common.reach_under(f, lambda x: None, set(), start=hdr, avoid=merge, cut=back, carry=tree, on_edge=on_edge)
+                    where = '%s/%s: loop at block %d, previous-band index %s' % (u.name, f.name, hdr, H.dv or '(unnamed)')
+                    if kept:
+                        loc = next((y.loc() for y in f.blocks[kept[0]].insts if y.d.get('l')), f.blocks[hdr].insts[0].loc())
+                        ck.violation(R, f.name, 'previous-band index %s (%s)' % (H.dv or '', _w(u)), 'there is a path through one iteration of the scanline loop that neither extends the previous band in place nor moves %s on to the band of this line: the next line is then compared with, and merged into, a band that is not adjacent to it' % (H.dv or 'the index'), loc)
+                    else:
+                        ck.ok(R, where, 'kept only on paths through blocks %s' % sorted(merge))
